@@ -146,6 +146,19 @@ class MFile:
 _CODE = {}
 
 
+def parse(s, tag):
+    """content of a model cache file: <tag> + repr(payload) + '$', nothing else (anything else does not load)"""
+    if not (s.startswith(tag) and s.endswith('$')):
+        raise ValueError('truncated / empty / corrupt file')
+    try:
+        v = ast.literal_eval(s[1:-1])
+    except (ValueError, SyntaxError):
+        raise ValueError('corrupt file')
+    if tag + repr(v) + '$' != s:
+        raise ValueError('corrupt file')
+    return v
+
+
 def build_module(W):
     if 'code' not in _CODE:
         src_path = os.path.join(os.environ.get('SX_REPO_SRC', '/repo/src'), 'taskchain', 'cache.py')
@@ -215,7 +228,9 @@ def build_module(W):
 
         def __exit__(self, *a):
             if 'w' in self.mode:
-                self.f.content = self.buf
+                # the buffered data lands at this handle's own offset (0 after its truncate): whatever another
+                # writer put beyond its length in the meantime stays in the file
+                self.f.content = self.buf + (self.f.content or '')[len(self.buf):]
                 self.f.writing = False
             return False
 
@@ -241,9 +256,7 @@ def build_module(W):
         @staticmethod
         def load(f):
             s = f.read()
-            if not (s.startswith('J') and s.endswith('$')):
-                raise ValueError('truncated / empty json')
-            k, v = eval(s[1:-1])
+            k, v = parse(s, 'J')
             return {'key': k, 'value': v}
 
     class PdStub:
@@ -253,10 +266,11 @@ def build_module(W):
                 s = f.read()
             if s == '':
                 raise EOFError('Ran out of input')
-            if not (s.startswith('P') and s.endswith('$')):
+            try:
+                return Frame(parse(s, 'P'))
+            except ValueError:
                 import pickle
                 raise pickle.UnpicklingError('pickle data was truncated')
-            return Frame(eval(s[1:-1]))
 
     class Frame:
         def __init__(self, v):
@@ -312,7 +326,7 @@ def make_harness(case, tier):
 
         def computer_for(t):
             def computer():
-                v = f'v{t}'
+                v = f'v{t}' + 'x' * (7 * t)      # payloads of different lengths
                 computed.append(v)
                 completed.append(v)
                 return mk(v)
@@ -370,11 +384,15 @@ def make_harness(case, tier):
         content = W.files[fp].content if fp in W.files else None
         wrote = any(o > 0 for o in ops) and (pre != 'intact' or any(o == 2 for o in ops))
         if content is not None and (computed or pre == 'intact'):
-            good = (content.endswith('$') and content[:1] in 'JP')
+            try:
+                parse(content, 'J' if ctype == 'json' else 'P')
+                good = True
+            except ValueError:
+                good = False
             ctx.check_concrete(good, 'quiescent-entry-complete', dict(info, content=content[:60]))
         # a call that started after another call had returned does not compute unless forced
         for t, op in enumerate(ops):
-            if op == 1 and f'v{t}' in computed:
+            if op == 1 and any(c.startswith(f'v{t}') for c in computed):
                 earlier = [u for u in finished_before_start.get(t, []) if ops[u] > 0 or pre == 'intact']
                 stored_before = any(ops[u] > 0 for u in finished_before_start.get(t, [])) or \
                     (pre == 'intact' and not any(ops[u] == 2 for u in range(len(ops)) if u != t))
@@ -386,6 +404,6 @@ def make_harness(case, tier):
 
 
 def run_case(case, tier):
-    ctx = explore.explore(make_harness(case, tier), max_paths=200000, time_budget_s=500)
+    ctx = explore.explore(make_harness(case, tier), max_paths=200000, time_budget_s=120 if tier == "quick" else 900)
     r = driver.result_from_ctx(ctx)
     return r
